@@ -1866,6 +1866,91 @@ func ruleBetweenOrder(p *Prog, r *Result) {
 			}
 		}
 		fails := len(failing)
+		// ... and only for lower > upper: equal boundaries are a legal (one-key) range
+		strictBad := ""
+		boundIdx := func(v ssa.Value) int {
+			idx := -1
+			mentions(v, func(x ssa.Value) bool {
+				ia, ok := x.(*ssa.IndexAddr)
+				if !ok {
+					return false
+				}
+				if !p.derivesFromField(ia.X, "ListExpr", "List", traceOpts{}) {
+					return false
+				}
+				if k, ok := constInt(ia.Index); ok && idx < 0 {
+					idx = int(k)
+				}
+				return false
+			}, 12)
+			return idx
+		}
+		for res := range results {
+			ex, _ := res.(*ssa.Extract)
+			if ex == nil {
+				continue
+			}
+			c, _ := ex.Tuple.(*ssa.Call)
+			if c == nil {
+				continue
+			}
+			op, isS := constString(c.Call.Args[2])
+			i0, i1 := boundIdx(c.Call.Args[0]), boundIdx(c.Call.Args[1])
+			if !isS || i0 < 0 || i1 < 0 || i0 == i1 {
+				strictBad = "the boundary comparison at " + p.InstrPos(c) + " could not be read (operands " + fmt.Sprint(i0, i1) + ")"
+				continue
+			}
+			// normalise to lower OP upper
+			if i0 == 1 {
+				op = map[string]string{"<": ">", "<=": ">=", ">": "<", ">=": "<=", "=": "="}[op]
+			}
+			// which outcome fails: find the If on this result (or its phi) whose successor returns the error
+			failsWhen := ""
+			for _, b := range fn.Blocks {
+				f := ifOf(b)
+				if f == nil {
+					continue
+				}
+				a, ok := condAtom(f.Cond, true)
+				if !ok {
+					continue
+				}
+				hit := a.X == res
+				if ph, isPhi := a.X.(*ssa.Phi); isPhi {
+					for _, e := range ph.Edges {
+						if e == res {
+							hit = true
+						}
+					}
+				}
+				if !hit {
+					continue
+				}
+				for si, sc := range b.Succs {
+					if !edgeDominates(b, si, sc) {
+						continue
+					}
+					if ret := retOf(sc); ret != nil && len(ret.Results) > 0 {
+						if _, isC := retVal(ret, len(ret.Results)-1).(*ssa.Call); isC {
+							ea, _ := edgeAtom(b, si)
+							bv, _ := constBool(ea.Y)
+							if (ea.Op == token.EQL) == bv {
+								failsWhen = "true"
+							} else {
+								failsWhen = "false"
+							}
+						}
+					}
+				}
+			}
+			okStrict := (op == "<=" && failsWhen == "false") || (op == ">" && failsWhen == "true")
+			if !okStrict {
+				strictBad = fmt.Sprintf("the evaluator fails when (lower %s upper) is %s: equal boundaries are refused", op, failsWhen)
+			}
+		}
+		if found > 0 {
+			r.add(strictBad == "", p.FName(fn)+"|equal-allowed", p.Pos(fn.Pos()), firstNonEmpty(strictBad, "the evaluator fails exactly when lower > upper"))
+		}
 		r.add(found > 0 && fails >= found, p.FName(fn), p.Pos(fn.Pos()), fmt.Sprintf("the two boundaries are compared with each other (%d comparison(s)) and one outcome is an error (%d)", found, fails))
 	}
 	r.floor("evaluators of BETWEEN", n, 2)
@@ -2752,4 +2837,64 @@ func ruleReorderKind(p *Prog, r *Result) {
 		})
 	}
 	r.floor("re-association sites", n, 1)
+}
+
+// ---------------- SUBSTREND ----------------
+
+func init() {
+	register("SUBSTREND", "substr(value, start, end) cuts at positions: in both bodies registered for `substr`, the upper index of the slice that is returned is the user's end position limited by the length of the value itself (min(end, len(value))) - not by the length minus the start, which treats the end as a length and returns nothing for the documented substr(key, 3, 4)", ruleSubstrEnd)
+}
+
+func ruleSubstrEnd(p *Prog, r *Result) {
+	rows, err := p.registry("funcMap")
+	if err != nil {
+		r.undecided("%v", err)
+		return
+	}
+	n := 0
+	for _, row := range rows {
+		if row.Key != "substr" {
+			continue
+		}
+		for which, body := range map[string]*ssa.Function{"Body": row.Body, "BodyVec": row.BodyVec} {
+			if body == nil {
+				continue
+			}
+			idx := 0
+			allInstrs(body, func(in ssa.Instruction) {
+				sl, ok := in.(*ssa.Slice)
+				if !ok || sl.High == nil {
+					return
+				}
+				if bt, isB := sl.X.Type().Underlying().(*types.Basic); !isB || bt.Kind() != types.String {
+					return
+				}
+				n++
+				idx++
+				okv := false
+				var visit func(v ssa.Value, d int)
+				visit = func(v ssa.Value, d int) {
+					if d > 4 {
+						return
+					}
+					if a, b, isMin := isMinCall(v); isMin {
+						for _, x := range []ssa.Value{a, b} {
+							if lv := lenOf(x); lv != nil && lv == sl.X {
+								okv = true
+							}
+						}
+						return
+					}
+					if ph, isPhi := v.(*ssa.Phi); isPhi {
+						for _, e := range ph.Edges {
+							visit(e, d+1)
+						}
+					}
+				}
+				visit(sl.High, 0)
+				r.add(okv, fmt.Sprintf("substr|%s|slice#%d", which, idx), p.InstrPos(sl), "the end of the cut is min(end, len(value))")
+			})
+		}
+	}
+	r.floor("slices of the value in the substr bodies", n, 2)
 }
